@@ -712,7 +712,10 @@ class Hist:
     def outstanding(self):
         cur, avail = self.e_state()
         held = set([cur] + avail)
-        out = {"unannounced": [], "lost": [], "unreplaced": [], "unacked": sorted(self.p_unacked)}
+        # a packet counts as unacknowledged once E's delayed-ACK timer (1 ms) must have fired
+        grace = self.pto() / 8
+        out = {"unannounced": [], "lost": [], "unreplaced": [],
+               "unacked": sorted(p for p, (t, _to) in self.p_unacked.items() if t < self.pup.now - grace)}
         for s in sorted(self.p_delivered - held - self.reported_late):
             car = self.retire_carriers.get(s)
             if not car:
@@ -740,6 +743,11 @@ class Hist:
         while self.closed is None and self.pup.terminated is None:
             self.send(F.f_ping() + self.ack_payload())
             self.fire_due()
+            # let virtual time pass, then fire what is due (delayed ACK, pacing, loss timers).  With a bulk
+            # upload in progress the pacing timer comes every few microseconds, so the delayed-ACK timer is
+            # only reached after this jump: evaluate afterwards.
+            self.pup.now += pto / 4
+            self.fire_due(0.0, steps=8)
             rounds += 1
             out = self.outstanding()
             if not any(out.values()) and rounds >= 2:
@@ -748,8 +756,6 @@ class Hist:
                 break
             if self.pup.now - t0 > 4 * pto and out["unreplaced"]:
                 break
-            self.pup.now += pto / 4
-            self.fire_due(0.0)
         self.wh_enabled = saved
         self.res.count("settle_phases")
         self.res.count("settle_rounds", rounds)
